@@ -291,7 +291,10 @@ def mass_properties(
     volume = integrated[0]
 
     if center_mass is None:
-        if np.abs(volume) < tol.zero:
+        # judge "no volume" against the size of the mesh, so a small solid
+        # (a part in metres, a model scaled by 1e-5) keeps its center
+        extent = np.ptp(triangles.reshape((-1, 3)), axis=0).max() if len(triangles) > 0 else 1.0
+        if np.abs(volume) <= tol.zero * extent**3:
             # if there is no volume set center of mass to the origin
             center_mass = np.zeros(3, dtype=np.float64)
         else:
